@@ -333,6 +333,35 @@ func (x *Exec) applyContract(ct *Contract, key string, callee *ssa.Function, sig
 		res = x.freshVal(resT, "ret", st, reach)
 	}
 	post := &Env{x: x, vars: env.vars, st: st, old: pre, reach: reach, imports: ct.Imports, pkgPath: ct.PkgPath, allocPre: allocPre}
+	// `fresh r` : result r is newly allocated; a fresh slice starts at offset 0 of its own backing array
+	if len(ct.Fresh) > 0 {
+		rs := sig.Results()
+		mark := func(v *Val, i int) {
+			name := ""
+			if i < len(ct.ResultNames) {
+				name = ct.ResultNames[i]
+			} else if i < rs.Len() {
+				name = rs.At(i).Name()
+			}
+			for _, f := range ct.Fresh {
+				if f == name && len(v.L) >= 1 {
+					if isSlice(v.Typ) && len(v.L) == 3 {
+						v.L[1] = "0"
+						x.sc.Assume(reach, Or(Eq(v.L[0], "0"), "(>= "+v.L[0]+" "+allocPre+")"))
+					} else if len(v.L) == 1 {
+						x.sc.Assume(reach, Or(Eq(v.L[0], "0"), "(>= "+v.L[0]+" "+allocPre+")"))
+					}
+				}
+			}
+		}
+		if len(res.Tuple) > 0 {
+			for i := range res.Tuple {
+				mark(&res.Tuple[i], i)
+			}
+		} else if sig.Results().Len() == 1 {
+			mark(&res, 0)
+		}
+	}
 	var results []Val
 	if len(res.Tuple) > 0 {
 		results = res.Tuple
@@ -391,6 +420,40 @@ func paramNamesNoRecv(sig *types.Signature) []string {
 
 // havocPlace forgets the contents of the location(s) denoted by a modifies expression.
 func (x *Exec) havocPlace(env *Env, m Expr, st *State, reach string) error {
+	// pointee(x): every field of the object the interface value x points to (dynamic type known at the call site)
+	if c, ok := m.(*ECall); ok {
+		if id, ok := c.Fn.(*EIdent); ok && id.Name == "pointee" && len(c.Args) == 1 {
+			v, err := env.evalRV(c.Args[0])
+			if err != nil {
+				return err
+			}
+			var pt types.Type
+			if len(v.L) == 2 {
+				var tag int
+				if _, serr := fmt.Sscanf(v.L[0], "%d", &tag); serr == nil && tag > 0 && tag < len(x.eng.tagTypes) && isLiteral(v.L[0]) {
+					pt = x.eng.tagTypes[tag]
+				}
+			} else if len(v.L) == 1 {
+				pt = v.Typ
+			}
+			ptr, isPtr := pt, false
+			if pt != nil {
+				_, isPtr = pt.Underlying().(*types.Pointer)
+			}
+			if !isPtr {
+				x.note("pointee() of a value whose dynamic type is not statically known: heap havocked")
+				x.havocAll(st)
+				return nil
+			}
+			obj := v.L[len(v.L)-1]
+			elemT := ptr.Underlying().(*types.Pointer).Elem()
+			cl := cell{root: elemT, obj: obj}
+			for _, l := range x.eng.layout(elemT) {
+				x.leafWrite(st, cl, l, x.sc.Fresh("hvp", l.Sort))
+			}
+			return nil
+		}
+	}
 	// mapOf(e): contents of the map e
 	if c, ok := m.(*ECall); ok {
 		if id, ok := c.Fn.(*EIdent); ok && id.Name == "mapOf" && len(c.Args) == 1 {
